@@ -8,7 +8,7 @@ import itertools
 
 from engine import symex as sx
 from engine.runner import Spec
-from engine.symex import s_and, s_close, s_eq, s_not
+from engine.symex import s_and, s_close, s_close_rel, s_eq, s_not
 
 
 class Env:
@@ -50,17 +50,17 @@ def path(c, job):
     c.summary = dict(kind=kind, job={k: v for k, v in job.items() if k != "kind"})
     if kind == "triple":
         a, b, d = (U[n] for n in job["units"])
-        x = c.real("x", -10 ** 6, 10 ** 6)
+        x = c.real("x", -10 ** 6, 10 ** 6)  # any magnitude, including values far below 1e-9
         y = c.real("y", -10 ** 6, 10 ** 6)
         c.reach("triple")
-        c.prove("C18.units identity", s_close(u.convert(a, a, x), x), info=dict(units=job["units"]))
-        c.prove("C18.units inverse", s_close(u.convert(b, a, u.convert(a, b, x)), x), info=dict(units=job["units"]))
-        c.prove("C18.units path-independent", s_close(u.convert(b, d, u.convert(a, b, x)), u.convert(a, d, x)), info=dict(units=job["units"]))
-        c.prove("C18.units additive", s_close(u.convert(a, b, x + y), u.convert(a, b, x) + u.convert(a, b, y)), info=dict(units=job["units"]))
-        c.prove("C18.units homogeneous", s_close(u.convert(a, b, 3 * x), 3 * u.convert(a, b, x)), info=dict(units=job["units"]))
+        c.prove("C18.units identity", s_close_rel(u.convert(a, a, x), x), info=dict(units=job["units"]))
+        c.prove("C18.units inverse", s_close_rel(u.convert(b, a, u.convert(a, b, x)), x), info=dict(units=job["units"]))
+        c.prove("C18.units path-independent", s_close_rel(u.convert(b, d, u.convert(a, b, x)), u.convert(a, d, x)), info=dict(units=job["units"]))
+        c.prove("C18.units additive", s_close_rel(u.convert(a, b, x + y), u.convert(a, b, x) + u.convert(a, b, y)), info=dict(units=job["units"]))
+        c.prove("C18.units homogeneous", s_close_rel(u.convert(a, b, 3 * x), 3 * u.convert(a, b, x)), info=dict(units=job["units"]))
         # the defined constants
         na, nb = job["units"][0], job["units"][1]
-        c.prove("C18.units constants", s_close(u.convert(a, b, x), x * (M_PER[na] / M_PER[nb])), info=dict(units=job["units"]))
+        c.prove("C18.units constants", s_close_rel(u.convert(a, b, x), x * (M_PER[na] / M_PER[nb])), info=dict(units=job["units"]))
         return
     if kind == "chain":
         # user-defined unit chains: depth <= 4 below the root, concrete factors
@@ -73,12 +73,12 @@ def path(c, job):
         x = c.real("x", -10 ** 6, 10 ** 6)
         c.reach("chain")
         for a, b, d in itertools.permutations(chain[-3:] + [side], 3):
-            c.prove("C18.chain inverse", s_close(u.convert(b, a, u.convert(a, b, x)), x))
-            c.prove("C18.chain path-independent", s_close(u.convert(b, d, u.convert(a, b, x)), u.convert(a, d, x)))
+            c.prove("C18.chain inverse", s_close_rel(u.convert(b, a, u.convert(a, b, x)), x))
+            c.prove("C18.chain path-independent", s_close_rel(u.convert(b, d, u.convert(a, b, x)), u.convert(a, d, x)))
         prod = 1
         for k in f:
             prod = prod * k
-        c.prove("C18.chain scale", s_close(u.convert(root, chain[-1], x), x * prod))
+        c.prove("C18.chain scale", s_close_rel(u.convert(root, chain[-1], x), x * prod))
         return
     if kind == "sonar":
         import robotpy_ext.common_drivers.xl_max_sonar_ez as xs
@@ -108,7 +108,7 @@ def path(c, job):
         finally:
             builtins.print = old_print
         c.reach("sonar")
-        c.prove("C18.sonar scaled-reading", s_close(got, exp), info=dict(sensor=job["sensor"], unit=job["unit"]))
+        c.prove("C18.sonar scaled-reading", s_close_rel(got, exp), info=dict(sensor=job["sensor"], unit=job["unit"]))
         return
     if kind == "pressure":
         import robotpy_ext.common_drivers.pressure_sensors as ps
